@@ -437,6 +437,7 @@ fn main() {
         "cursors" => cursors(&a, &mut o),
         "getters" => getters_tbl(&a, &mut o),
         "writers" => vharness::bufx::wrt::writers(&a, &mut o),
+        "putters" => vharness::bufx::wrt::putters(&a, &mut o),
         "faults" => vharness::bufx::faults::faults(&a, &mut o),
         m => {
             eprintln!("unknown mode {m}");
